@@ -61,38 +61,14 @@ def rules(fx, rep):
     rel = None
     ok_exc = False
     for pth, ret, _ in hres:
-        if not (isinstance(ret, exp.Agg) and len(ret.items) == 7 and all(isinstance(x, Lin) for x in ret.items)):
-            rep.fail('EXP', 'helper:result-shape', 'helper does not return 7 tracked field elements', hw)
+        if not (isinstance(ret, exp.Agg) and len(ret.items) == 7):
+            rep.fail('EXP', 'helper:result-shape', 'helper does not return 7 field elements', hw)
             return
         usq, xi_usq, xi2_u4, x0_num, x0_den, gx0_num, gx0_den = ret.items
         labs = pth.labels
         rep.check(usq == Lin({'t': 2}) and xi_usq == Lin({'t': 2, 'xi': 1}) and xi2_u4 == Lin({'t': 4, 'xi': 2}), 'EXP', 'helper:monomials',
                   'usq = t^2, xi_usq = xi t^2, xi2_u4 = xi^2 t^4', 'monomial outputs are %r, %r, %r' % (usq, xi_usq, xi2_u4), hw)
-        rep.check(gx0_den == x0_den.scale(3), 'EXP', 'helper:gx0_den=x0_den^3', 'g-denominator is the cube of the x-denominator', 'gx0_den is %r, x0_den is %r' % (gx0_den, x0_den), hw)
-        if len(labs) == 1 and isinstance(labs[0][0], tuple) and labs[0][0][0] == 'is_zero':
-            nd = labs[0][0][1]
-            taken_true = labs[0][1] != 0
-            nd_atoms = nd.atoms() if isinstance(nd, Lin) else set()
-            # nd must be the sum xi^2 t^4 + xi t^2 (an opaque atom created by that addition)
-            defs = [exp.OPAQUE_DEFS.get(a_) for a_ in nd_atoms]
-            parts = (Lin({'t': 4, 'xi': 2}), Lin({'t': 2, 'xi': 1}))
-            is_sum = (isinstance(nd, Lin) and len(nd.t) == 1 and list(nd.t.values()) == [1] and len(defs) == 1 and defs[0] is not None and defs[0][0] == 'add_assign'
-                      and ((defs[0][1] == parts[0] and defs[0][2] == parts[1]) or (defs[0][1] == parts[1] and defs[0][2] == parts[0])))
-            rep.check(is_sum, 'GUARD', 'helper:branch-on-denominator', 'the branch tests xi^2 t^4 + xi t^2 for zero', 'the branch tests %r' % (nd,), hw)
-            if taken_true:
-                ok_exc = x0_den == Lin({'A': 1, 'xi': 1})
-                rep.check(ok_exc, 'GUARD', 'helper:exceptional-denominator', 'zero denominator => x-denominator A\'*xi (x = B\'/(Z A\'))',
-                          'on the zero-denominator branch the x-denominator is %r, expected A*xi' % (x0_den,), hw)
-            else:
-                want = Lin({'A': 1, '-1': 1}).add(nd)
-                rep.check(x0_den == want, 'GUARD', 'helper:generic-denominator', 'x-denominator = -A\' (xi^2 t^4 + xi t^2)', 'x-denominator is %r' % (x0_den,), hw)
-                # numerator B (1 + nd): opaque sum with one
-                s2 = [exp.OPAQUE_DEFS.get(a_) for a_ in x0_num.atoms() if a_ in exp.OPAQUE_DEFS]
-                good = (x0_num.coeff('B') == 1 and len(x0_num.t) == 2 and len(s2) == 1 and s2[0][0] == 'add_assign'
-                        and ((s2[0][1] == nd and s2[0][2] == Lin()) or (s2[0][2] == nd and s2[0][1] == Lin())))
-                rep.check(good, 'EXP', 'helper:numerator', 'x-numerator = B\' (1 + xi^2 t^4 + xi t^2)', 'x-numerator is %r (%s)' % (x0_num, s2), hw)
-        else:
-            rep.fail('GUARD', 'helper:branch-on-denominator', 'unexpected branch structure %r' % (labs,), hw)
+        # (numerator, denominators and the exceptional branch: decided as polynomial identities by rule_helper_polys)
     rel = {'usq': Lin({'t': 2}), 'xi_usq': Lin({'t': 2, 'xi': 1}), 'xi2_u4': Lin({'t': 4, 'xi': 2}), 'gx0_den': Lin({'x0_den': 3})}
 
     # ------------------------------------------------ per group
@@ -483,10 +459,16 @@ def main(tier, t0):
 
 # ---------------------------------------------------------------- the helper's polynomials (sum-of-monomials domain)
 def rule_helper_polys(fx, rep):
-    """x0 = N/D with N = B(1 + xi^2 t^4 + xi t^2), D = -A(xi^2 t^4 + xi t^2) (exceptional: D = A xi), and
-    g(x0) = gN/gD with gD = D^3, gN = N^3 + A N D^2 + B D^3 -- the RFC's x1 and the curve's right-hand side,
-    homogenised.  Sums are kept as sums of monomials; products of two sums are interned, never expanded."""
-    from exp import Sum
+    """The shared helper, decided in the polynomial ring Z_q[t, xi, A, B] (bounded degree; assume-guarantee on the field
+    operations): with s = xi^2 t^4 + xi t^2 it returns the monomials t^2, xi t^2, xi^2 t^4 and, on the path taken for
+    s != 0, x0 = N/D with N/D = B(1 + s)/(-A s); on the path taken for s = 0, x0 = B/(A xi); on both paths
+    g(x0) = gN/gD with gD = D^3 and gN = N^3 + A N D^2 + B D^3.  Identities are cross-multiplied, those of the exceptional
+    path hold modulo s; the branch must be a zero test of s up to a unit (a signed monomial in the non-zero constants)."""
+    import polyring as PR
+    import inline as INL
+    import tt
+    from props import c01gen as G
+    Poly = PR.Poly
     sswu = C.check_sswu_consts(fx, core_report_sink())
     helper = roles.roles(fx).get('sswu_helper')
     paths = set()
@@ -497,64 +479,103 @@ def rule_helper_polys(fx, rep):
     if fx.body(helper) is None:
         rep.fail('POLY', 'helper:anchor', 'SSWU helper not found')
         return
-    I = exp.Interp(fx, 'mul')
-    I.sums = True
-    at = Lin.atom
-    try:
-        res = I.run(helper, [('byref', at('t')), ('byref', at('xi')), ('byref', at('A')), ('byref', at('B'))])
-    except (exp.NotDerivable, exp.Budget) as e:
-        rep.fail('POLY', 'helper:derivable', 'not derivable: %s' % e, fx.fn(helper)['span'])
-        return
     where = fx.fn(helper)['span']
-    nd = Sum({frozenset({('xi', 2), ('t', 4)}): 1, frozenset({('xi', 1), ('t', 2)}): 1})
-    N_want = nd.add(Sum.of(Lin())).mul_mono(at('B'))
-    bad = []
-    for pth, ret, _ in res:
-        if not (isinstance(ret, exp.Agg) and len(ret.items) == 7):
-            bad.append('unexpected result shape')
-            continue
-        usq, xi_usq, xi2_u4, x0_num, x0_den, gx0_num, gx0_den = ret.items
-        labs = pth.labels
-        exceptional = bool(labs) and labs[0][1] != 0
-        tested = labs[0][0][1] if labs and isinstance(labs[0][0], tuple) and labs[0][0][0] == 'is_zero' else None
-        if not (isinstance(tested, Sum) and tested == nd):
-            bad.append('the branch does not test xi^2 t^4 + xi t^2 (tests %r)' % (tested,))
-        if not (isinstance(x0_num, Sum) and x0_num == N_want):
-            bad.append('x-numerator is not B(1 + xi^2 t^4 + xi t^2)')
-        if exceptional:
-            D_want = Lin({'A': 1, 'xi': 1})
-            okd = x0_den == D_want
-        else:
-            okd = isinstance(x0_den, Sum) and x0_den == nd.mul_mono(at('A')).scale(-1)
-            D_want = None
-        if not okd:
-            bad.append('x-denominator on the %s path is %r' % ('exceptional' if exceptional else 'generic', x0_den))
-            continue
-        Nm = I._intern(x0_num)
-        Dm = I._intern(x0_den) if not exceptional else D_want
-        if not (isinstance(gx0_den, Lin) and gx0_den == Dm.scale(3)):
-            bad.append('g-denominator is %r, expected the cube of the x-denominator' % (gx0_den,))
-        want = Sum.of(Nm.scale(3)).add(Sum.of(Nm.add(Dm.scale(2)).add(at('A')))).add(Sum.of(Dm.scale(3).add(at('B'))))
-        got = gx0_num if isinstance(gx0_num, Sum) else (Sum.of(gx0_num) if isinstance(gx0_num, Lin) else None)
+    t, xi, A, B = Poly.atom('t'), Poly.atom('xi'), Poly.atom('A'), Poly.atom('B')
+    I = exp.Interp(fx, 'none', extra_transfer=G.transfer, max_paths=16, inline=lambda q: INL.is_private_helper(fx, q))
+    I.fork_inlined = True
+    try:
+        res = I.run(helper, [('byref', t), ('byref', xi), ('byref', A), ('byref', B)])
+    except (exp.NotDerivable, exp.Budget) as e:
+        rep.fail('POLY', 'helper:derivable', 'not derivable: %s' % e, where, construct=helper)
+        return
+    rep.sites(I.call_sites)
+    t2 = t.mul(t)
+    s_ = xi.mul(xi).mul(t2).mul(t2).add(xi.mul(t2))
+    LEAD = ('t', 't', 't', 't', 'xi', 'xi')
 
-        def expand_linear(sm):
-            out = Sum()
-            for mono, coef in sm.t.items():
-                m = Lin(dict(mono))
-                ints = [(a, k) for a, k in m.t.items() if a.startswith('S#')]
-                if len(ints) == 1 and ints[0][1] == 1:
-                    rest = Lin({a: k for a, k in m.t.items() if a != ints[0][0]})
-                    out = out.add(I.interned[int(ints[0][0][2:])].mul_mono(rest).scale(coef))
+    def reduce_mod_s(p):
+        # remainder of p on division by s (leading monomial xi^2 t^4, which s contains with coefficient 1)
+        for _ in range(400):
+            hit = None
+            for k in p.t:
+                if k.count('xi') >= 2 and k.count('t') >= 4:
+                    hit = k
+                    break
+            if hit is None:
+                return p
+            rest = list(hit)
+            for a_ in LEAD:
+                rest.remove(a_)
+            p = p.add(Poly({tuple(sorted(rest)): p.t[hit]}).mul(s_), -1)
+        return p
+
+    def unit_multiple_of_s(p):
+        # p = c * m * s with c a non-zero integer constant and m a monomial in A, B, xi
+        if p.is_zero():
+            return False
+        for m_atoms in ((), ('A',), ('B',), ('xi',), ('A', 'xi'), ('A', 'B'), ('B', 'xi'), ('A', 'A'), ('A', 'B', 'xi')):
+            m = Poly({tuple(sorted(m_atoms)): 1})
+            ms = m.mul(s_)
+            k0 = sorted(ms.t)[0]
+            if k0 in p.t:
+                c_ = p.t[k0] * pow(ms.t[k0], -1, PR.Q) % PR.Q
+                if c_ and p == ms.scale(c_):
+                    return True
+        return False
+
+    def is_unit(p):
+        return len(p.t) == 1 and all(a_ in ('A', 'B', 'xi') for a_ in list(p.t)[0]) and list(p.t.values())[0] % PR.Q != 0
+    bad = []
+    kinds = set()
+    for pth, ret, _ in res:
+        if isinstance(ret, tuple) and ret and ret[0] == 'diverges':
+            bad.append('a path panics')
+            continue
+        if not (isinstance(ret, exp.Agg) and len(ret.items) == 7 and all(isinstance(x, Poly) for x in ret.items)):
+            bad.append('the helper does not return seven polynomial values (%r)' % (ret,))
+            continue
+        usq, xi_usq, xi2_u4, N, D, gN, gD = ret.items
+        exceptional = None
+        for lab, taken in pth.labels:
+            x, neg = tt.strip_not(lab)
+            truth = (taken != 0) != neg
+            if isinstance(x, tuple) and x and x[0] in ('pzero', 'peq') and unit_multiple_of_s(x[1]):
+                if exceptional is not None and exceptional != truth:
+                    exceptional = 'contradiction'
                 else:
-                    out = out.add(Sum({mono: coef}))
-            return out
-        if got is not None:
-            got, want = expand_linear(got), expand_linear(want)
-        if got is None or not (got == want):
-            bad.append('g-numerator on the %s path is not N^3 + A N D^2 + B D^3' % ('exceptional' if exceptional else 'generic'))
-    rep.check(not bad and len(res) == 2, 'POLY', 'helper:rational-functions',
-              'x0 = B(1+s)/(-A s) with s = xi^2 t^4 + xi t^2 (exceptional s = 0: denominator A xi); g(x0) = (N^3 + A N D^2 + B D^3)/D^3 on both paths',
-              '; '.join(bad[:3]), where, construct=helper)
+                    exceptional = truth
+            else:
+                bad.append('branches on %r, which is not a zero test of xi^2 t^4 + xi t^2 (up to a non-zero factor)' % (x,))
+        if exceptional == 'contradiction':
+            continue            # infeasible
+        if exceptional is None:
+            bad.append('a path does not decide whether xi^2 t^4 + xi t^2 vanishes')
+            continue
+        kinds.add(exceptional)
+        name = 'exceptional' if exceptional else 'generic'
+        red = reduce_mod_s if exceptional else (lambda p_: p_)
+        if not (usq == t2 and xi_usq == xi.mul(t2) and xi2_u4 == xi.mul(xi).mul(t2).mul(t2)):
+            bad.append('%s path: the monomial outputs are not t^2, xi t^2, xi^2 t^4' % name)
+        if exceptional:
+            if not is_unit(reduce_mod_s(D)):
+                bad.append('exceptional path: the x-denominator %r is not a non-zero constant' % (D,))
+            if not red(N.mul(A).mul(xi).add(B.mul(D), -1)).is_zero():
+                bad.append('exceptional path: x0 = N/D is not B/(A xi)')
+        else:
+            if not unit_multiple_of_s(D):
+                bad.append('generic path: the x-denominator %r is not a non-zero multiple of xi^2 t^4 + xi t^2' % (D,))
+            if not N.mul(A.mul(s_).neg()).add(B.mul(s_.add(PR.ONE)).mul(D), -1).is_zero():
+                bad.append('generic path: x0 = N/D is not B(1 + s)/(-A s)')
+        if not red(gD.add(D.mul(D).mul(D), -1)).is_zero():
+            bad.append('%s path: the g-denominator is not the cube of the x-denominator' % name)
+        want = N.mul(N).mul(N).add(A.mul(N).mul(D).mul(D)).add(B.mul(D).mul(D).mul(D))
+        if not red(gN.add(want, -1)).is_zero():
+            bad.append('%s path: the g-numerator is not N^3 + A N D^2 + B D^3' % name)
+    if not bad and kinds != {True, False}:
+        bad.append('paths found for s = 0: %s, for s != 0: %s' % (True in kinds, False in kinds))
+    rep.check(not bad, 'POLY', 'helper:rational-functions',
+              'x0 = B(1+s)/(-A s) with s = xi^2 t^4 + xi t^2 (path for s = 0: B/(A xi)); g(x0) = (N^3 + A N D^2 + B D^3)/D^3 on both paths; the branch is a zero test of s up to a unit -- polynomial identities (exceptional path: modulo s)',
+              '; '.join(bad[:3])[:700], where, construct=helper)
 
 
 class _Sink:
